@@ -25,10 +25,10 @@ type Config struct {
 	MapOrderMax int    // maps with 2..k entries are ranged in every order
 	Workers     int
 	Verbose     bool
-	ModulePath  string // packages under this prefix are (re)initialised per path
-	LogSMT      string // file prefix for SMT logs (debug)
-	StopOnFirst bool   // stop exploring after first violation
-	CrossCheck  string // second solver to re-ask every unsat assertion (thorough)
+	ModulePath  string      // packages under this prefix are (re)initialised per path
+	LogSMT      string      // file prefix for SMT logs (debug)
+	StopOnFirst bool        // stop exploring after first violation
+	CrossCheck  string      // second solver to re-ask every unsat assertion (thorough)
 	Concrete    []ReplayVal // concrete mode: nondets are read from this vector
 }
 
@@ -89,14 +89,14 @@ type symAlloc struct {
 
 // Finding is a violated assertion or an escaped panic with a witness.
 type Finding struct {
-	Harness   string            `json:"harness"`
-	Kind      string            `json:"kind"` // "assert" | "panic" | "alloc"
-	Msg       string            `json:"msg"`
-	Site      string            `json:"site,omitempty"`
-	Decisions []int             `json:"decisions"`
-	Vector    []ReplayVal       `json:"vector"`
-	Named     map[string]string `json:"named,omitempty"`
-	NeedsMapOrder bool          `json:"needs_map_order,omitempty"`
+	Harness       string            `json:"harness"`
+	Kind          string            `json:"kind"` // "assert" | "panic" | "alloc"
+	Msg           string            `json:"msg"`
+	Site          string            `json:"site,omitempty"`
+	Decisions     []int             `json:"decisions"`
+	Vector        []ReplayVal       `json:"vector"`
+	Named         map[string]string `json:"named,omitempty"`
+	NeedsMapOrder bool              `json:"needs_map_order,omitempty"`
 }
 
 type ReplayVal struct {
@@ -107,20 +107,23 @@ type ReplayVal struct {
 }
 
 type PathResult struct {
-	Prefix    []int
-	Decisions []int
-	Status    string // ok | panic | pruned | unsupported | budget | internal
-	Msg       string
-	Findings  []Finding
-	Unknowns  []string // inconclusive obligations
-	Reached   map[string]int
-	Asserts   int // obligations posed on this path
-	Syntactic int // decided without solver (constant true)
-	Solver    int // decided unsat by solver
-	Steps     int
-	Forks     [][]int // new prefixes discovered
-	Sample    string
-	Trace     []string
+	Prefix        []int
+	Decisions     []int
+	Status        string // ok | panic | pruned | unsupported | budget | internal
+	Msg           string
+	Findings      []Finding
+	Unknowns      []string // inconclusive obligations
+	Reached       map[string]int
+	Asserts       int // obligations posed on this path
+	Syntactic     int // decided without solver (constant true)
+	Solver        int // decided unsat by solver
+	Steps         int
+	Forks         [][]int // new prefixes discovered
+	Sample        string
+	Trace         []string
+	StoredLabels  map[string]bool
+	UnlockedLoads map[string]string
+	Accesses      int
 }
 
 // interpreter is per-worker; path state is reset by resetPath.
@@ -141,66 +144,78 @@ type interpreter struct {
 	sharedInit map[*ssa.Package]bool
 
 	// per path
-	globals    map[*ssa.Global]*value
-	pathInit   map[*ssa.Package]bool
-	prefix     []int
-	decisions  []int
-	forks      [][]int
-	pc         []*Term
-	steps      int
-	depth      int
-	allocs     int
-	nondets    []NondetRec
-	reached    map[string]int
-	findings   []Finding
-	unknowns   []string
-	asserts    int
-	syntactic  int
-	solved     int
-	panicSite  string
-	nonASCII   int
-	symAllocs  []symAlloc
-	hugeAllocs []string
+	globals         map[*ssa.Global]*value
+	pathInit        map[*ssa.Package]bool
+	prefix          []int
+	decisions       []int
+	forks           [][]int
+	pc              []*Term
+	steps           int
+	depth           int
+	allocs          int
+	nondets         []NondetRec
+	reached         map[string]int
+	findings        []Finding
+	unknowns        []string
+	asserts         int
+	syntactic       int
+	solved          int
+	panicSite       string
+	nonASCII        int
+	symAllocs       []symAlloc
+	hugeAllocs      []string
 	mapOrderMax     int
 	mapRangesForked int
 	mapRangesFixed  int
 	fixedRangeSites map[string]int
 	usedMapOrder    bool
-	env        *envModel // fs / clock stubs (per path)
-	lockst     *lockState
-	storeHook    func(fr *frame, instr *ssa.Store, addr *value)
-	mapWriteHook func(fr *frame, instr *ssa.MapUpdate, m *smap)
+	env             *envModel // fs / clock stubs (per path)
+	lockst          *lockState
+	storeHook       func(fr *frame, instr *ssa.Store, addr *value)
+	mapWriteHook    func(fr *frame, instr *ssa.MapUpdate, m *smap)
 
 	callLog map[*ssa.Function]int // per worker, cumulative
 
-	inInit         int
-	sliceHits      int
-	franges        map[int]frange
-	whyLog         []string
-	model          map[int]uint64 // a model of the current PC (nil = none cached)
-	modelHits      int
-	whyCount       map[string]int
-	ranges         map[int]urange
-	rangeDecided   int
-	fstarted       bool
-	locks          map[*value]*lockInfo
-	lockEvents     int
-	atomicOps      int
-	atomicHook     func(fr *frame, p *value, write bool)
-	known          map[int]bool
-	concPos        int
-	trace          []string
-	regexps        map[*value]*reClass
-	regexpsSeen    map[string]int
-	directInit     *ssa.Function
-	curFrame       *frame
-	nonASCIITotal  int
-	logPoints      [][2]*Term
-	powPoints      [][3]*Term
-	opaqueStrings  int
-	prints         int
-	lastCaught     string
-	lastCaughtSite string
+	inInit          int
+	guards          []*guardSet
+	loadHook        func(fr *frame, addr *value)
+	mapAccessHook   func(fr *frame, m *smap, write bool)
+	storedLabels    map[string]bool
+	unlockedLoads   map[string]string
+	disciplineSeen  map[string]bool
+	accessCount     int
+	unknownBranches int
+	allocBound      int64
+	allocBoundSet   bool
+	allocMsg        string
+	allocSites      map[string]int
+	sliceHits       int
+	franges         map[int]frange
+	whyLog          []string
+	model           map[int]uint64 // a model of the current PC (nil = none cached)
+	modelHits       int
+	whyCount        map[string]int
+	ranges          map[int]urange
+	rangeDecided    int
+	fstarted        bool
+	locks           map[*value]*lockInfo
+	lockEvents      int
+	atomicOps       int
+	atomicHook      func(fr *frame, p *value, write bool)
+	known           map[int]bool
+	concPos         int
+	trace           []string
+	regexps         map[*value]*reClass
+	regexpsSeen     map[string]int
+	directInit      *ssa.Function
+	curFrame        *frame
+	nonASCIITotal   int
+	logPoints       [][2]*Term
+	powPoints       [][3]*Term
+	opaqueStrings   int
+	prints          int
+	lastCaught      string
+	lastCaughtSite  string
 }
 
 func (i *interpreter) resetPath(prefix []int) {
@@ -212,6 +227,7 @@ func (i *interpreter) resetPath(prefix []int) {
 	i.pc = i.pc[:0]
 	i.steps = 0
 	i.depth = 0
+	i.accessCount = 0
 	i.allocs = 0
 	i.nondets = nil
 	i.reached = map[string]int{}
@@ -222,6 +238,13 @@ func (i *interpreter) resetPath(prefix []int) {
 	i.nonASCIITotal += i.nonASCII
 	i.nonASCII = 0
 	i.logPoints = nil
+	i.guards = nil
+	i.loadHook = nil
+	i.mapAccessHook = nil
+	i.storedLabels = map[string]bool{}
+	i.unlockedLoads = map[string]string{}
+	i.disciplineSeen = map[string]bool{}
+	i.allocBoundSet = false
 	i.franges = map[int]frange{}
 	i.whyLog = nil
 	i.model = map[int]uint64{}
@@ -444,7 +467,9 @@ func (i *interpreter) decide(c *Term, why string) bool {
 		i.whyCount[why]++
 	}
 	if debugDecisions {
-		defer func() { i.whyLog = append(i.whyLog, fmt.Sprintf("#%d %s -> %v", len(i.decisions)-1, why, i.decisions[len(i.decisions)-1])) }()
+		defer func() {
+			i.whyLog = append(i.whyLog, fmt.Sprintf("#%d %s -> %v", len(i.decisions)-1, why, i.decisions[len(i.decisions)-1]))
+		}()
 	}
 	nc := i.st.Not(c)
 	// the cached model witnesses one side without a query
@@ -476,7 +501,8 @@ func (i *interpreter) decide(c *Term, why string) bool {
 		return true
 	}
 	if rt == "unknown" || rf == "unknown" {
-		i.unknowns = append(i.unknowns, "branch feasibility unknown at "+why)
+		// both sides are explored: sound (an infeasible path only adds vacuous obligations)
+		i.unknownBranches++
 	}
 	// both feasible: take true now, queue false
 	alt := append(append([]int(nil), i.decisions...), 0)
@@ -809,6 +835,8 @@ func (i *interpreter) runInit(pkg *ssa.Package) {
 	i.steps, i.depth = saveSteps, saveDepth
 }
 
+// accessCount is reset per path
+
 func (i *interpreter) callSSAInit(fn *ssa.Function) {
 	i.inInit++
 	defer func() { i.inInit-- }()
@@ -862,6 +890,7 @@ func (i *interpreter) runPath(entry *ssa.Function, prefix []int) (res *PathResul
 		res.Asserts, res.Syntactic, res.Solver = i.asserts, i.syntactic, i.solved
 		res.Steps = i.steps
 		res.Forks = i.forks
+		res.StoredLabels, res.UnlockedLoads, res.Accesses = i.storedLabels, i.unlockedLoads, i.accessCount
 		if debugDecisions && fmt.Sprint(res.Decisions) == os.Getenv("VERIF_DEBUG_DECISIONS") || os.Getenv("VERIF_DEBUG_DECISIONS") == "all" {
 			fmt.Println("==== decisions of path", res.Decisions, res.Status, res.Msg)
 			for _, l := range i.whyLog {
@@ -937,34 +966,37 @@ func trimInts(a []int, n int) []int {
 // ---- harness exploration ----
 
 type HarnessReport struct {
-	Name        string
-	Paths       int
-	ByStatus    map[string]int
-	Decisions   int
-	Findings    []Finding
-	Unknowns    []string
-	Problems    []string // unsupported / budget / internal messages
-	Reached     map[string]int
-	Asserts     int
-	Syntactic   int
-	SolverUnsat int
-	Queries     int
-	Sat, Unsat  int
-	Unknown     int
-	SolverErr   int
-	SolverTime  time.Duration
-	Wall        time.Duration
-	Funcs       map[string]int // function -> SSA instruction count
-	FuncCalls   map[string]int
-	Samples     []string
-	Steps       int
-	Exhausted   bool // all paths explored (queue drained)
+	Name            string
+	Paths           int
+	ByStatus        map[string]int
+	Decisions       int
+	Findings        []Finding
+	Unknowns        []string
+	Problems        []string // unsupported / budget / internal messages
+	Reached         map[string]int
+	Asserts         int
+	Syntactic       int
+	SolverUnsat     int
+	Queries         int
+	Sat, Unsat      int
+	Unknown         int
+	SolverErr       int
+	SolverTime      time.Duration
+	Wall            time.Duration
+	Funcs           map[string]int // function -> SSA instruction count
+	FuncCalls       map[string]int
+	Samples         []string
+	Steps           int
+	Exhausted       bool // all paths explored (queue drained)
 	MapRangesForked int
 	MapRangesFixed  int
-	FixedSites  map[string]int
-	NonASCII    int
-	FPQueries   int
-	WhyCount    map[string]int
+	FixedSites      map[string]int
+	NonASCII        int
+	FPQueries       int
+	StoredLabels    map[string]bool
+	UnlockedLoads   map[string]string
+	GuardedAccesses int
+	WhyCount        map[string]int
 }
 
 type Program struct {
@@ -977,7 +1009,7 @@ type Program struct {
 func (p *Program) Explore(fn *ssa.Function, cfg Config) *HarnessReport {
 	t0 := time.Now()
 	rep := &HarnessReport{Name: fn.Name(), ByStatus: map[string]int{}, Reached: map[string]int{},
-		Funcs: map[string]int{}, FuncCalls: map[string]int{}, FixedSites: map[string]int{}, WhyCount: map[string]int{}}
+		Funcs: map[string]int{}, FuncCalls: map[string]int{}, StoredLabels: map[string]bool{}, UnlockedLoads: map[string]string{}, FixedSites: map[string]int{}, WhyCount: map[string]int{}}
 	var mu sync.Mutex
 	queue := [][]int{nil}
 	inflight := 0
@@ -1026,6 +1058,15 @@ func (p *Program) Explore(fn *ssa.Function, cfg Config) *HarnessReport {
 			for k, v := range res.Reached {
 				rep.Reached[k] += v
 			}
+			for k := range res.StoredLabels {
+				rep.StoredLabels[k] = true
+			}
+			for k, v := range res.UnlockedLoads {
+				if _, ok := rep.UnlockedLoads[k]; !ok {
+					rep.UnlockedLoads[k] = v
+				}
+			}
+			rep.GuardedAccesses += res.Accesses
 			for _, f := range res.Findings {
 				key := f.Kind + "|" + f.Msg + "|" + f.Site
 				if !seenFinding[key] {
@@ -1161,7 +1202,7 @@ func (p *Program) newInterp(cfg *Config, harness string, id int) (*interpreter, 
 	}
 	i := &interpreter{prog: p.Prog, cfg: cfg, st: st, solver: s, sizes: p.Sizes, harnessName: harness,
 		shared: map[*ssa.Global]*value{}, sharedInit: map[*ssa.Package]bool{},
-		callLog: map[*ssa.Function]int{}, fixedRangeSites: map[string]int{}, regexpsSeen: map[string]int{}, whyCount: map[string]int{}}
+		callLog: map[*ssa.Function]int{}, allocSites: map[string]int{}, fixedRangeSites: map[string]int{}, regexpsSeen: map[string]int{}, whyCount: map[string]int{}}
 	if cfg.CrossCheck != "" {
 		x, err := NewSolver(cfg.CrossCheck, st, cfg.TimeoutMs)
 		if err != nil {
